@@ -174,6 +174,13 @@ def corruptions(doc, ver, clsname=None, dictionary=None):
                 out.append(_set(p, "ext:null-in-unregistered-body", {E: {"extension_type": "property-extension", "a": None}}))
                 out.append(_set(p, "ext:empty-list-in-unregistered-body", {E: {"extension_type": "property-extension", "a": []}}))
                 out.append(_set(p, "ext:null-deep-in-unregistered-body", {E: {"extension_type": "property-extension", "a": {"b": ["x", None]}}}))
+                if len(p) == 1:
+                    # the properties an unregistered top-level extension adds to the object itself
+                    T = {E: {"extension_type": "toplevel-property-extension"}}
+                    out.append(dict(_set(p, "ext:null-in-toplevel-extension-property", T), also_set_top={"toplevel_extra": {"a": None}}))
+                    out.append(dict(_set(p, "ext:empty-list-in-toplevel-extension-property", T), also_set_top={"toplevel_extra": {"a": {"b": []}}}))
+                    out.append(dict(_set(p, "ext:null-in-list-toplevel-extension-property", T), also_set_top={"toplevel_extra": ["x", None]}))
+                    out.append(dict(_set(p, "ext:plain-toplevel-extension-property", T), also_set_top={"toplevel_extra": {"a": ["x"]}}))
         elif k == "pattern":
             out.extend([_set(p, "pattern:syntax", "[file:name = ]"), _set(p, "pattern:unbalanced", "[file:name = 'a'"), _set(p, "pattern:text", "not a pattern")])
         elif k == "string":
